@@ -66,6 +66,12 @@ func vfEmbedRoot(dir string, pattern string) {}
 // tree below root (relative names against cwd); no-op natively, where the real os answers.
 func vfOSRoot(root string, cwd string) {}
 
+// vfRace switches on schedule exploration (every schedule with at most maxPreemptions
+// preemptive switches at synchronisation operations) and the happens-before race detector
+// for the goroutines the harness starts from here on; no-op natively, where the harness is
+// run under the Go race detector instead.
+func vfRace(maxPreemptions int) {}
+
 // vfSymbolic reports whether the harness runs inside the engine.
 func vfSymbolic() bool { return false }
 
